@@ -128,7 +128,10 @@ def oracle(text, opts=None, kinds=ALL_KINDS):
             if ckey(v) != ckey(w) and 'case-only' in kinds:
                 return _fail(text, opts, 'case-only', '%s token %r became %r' % (tt, v, w))
             if is_kw and 'literal' in kinds and _quoted_parts(v) != _quoted_parts(w):
-                return _fail(text, opts, 'literal', '%s token %r became %r' % (tt, v, w), 'kw-tzcast-literal')
+                # the listed finding is about the rule (AT|WITH')\s+TIME\s+ZONE\s+'[^']+': a keyword token that starts with
+                # AT or with WITH' (sic).  Any other keyword token with a quoted part is something else.
+                return _fail(text, opts, 'literal', '%s token %r became %r' % (tt, v, w),
+                             'kw-tzcast-literal' if v.lstrip().upper().startswith(('AT', "WITH'")) else 'kw-literal-other')
         if is_str and 'truncate' in kinds:
             inner = v[1:-1]
             if len(inner) > width:
